@@ -421,7 +421,9 @@ fn base_qos(reliable: bool, dur: Durability) -> QosPolicyBuilder {
   }
 }
 
-const LENS: [usize; 14] = [0, 1, 2, 3, 17, 500, 1007, 1008, 1009, 1010, 1011, 1023, 2050, 4099];
+// serialized sample = 4 (representation header) + 12 (key, seq, length prefix) + len: 1008 / 2032 / 3056 make it exactly
+// 1 / 2 / 3 fragment sizes (seeded change C07-B: receiver expecting one fragment too many at exact multiples)
+const LENS: [usize; 18] = [0, 1, 2, 3, 17, 500, 1007, 1008, 1009, 1010, 1011, 1023, 2031, 2032, 2033, 2050, 3056, 4099];
 
 fn gen_samples(r: &mut Rng, n: usize, seq0: i32, keyed: bool) -> Vec<Smp> {
   let mut v = Vec::new();
@@ -518,7 +520,7 @@ fn corpus() -> Vec<Scenario> {
       rq: rel_tl.clone(),
       order: vec![Ev::P1, Ev::T1, Ev::W, Ev::P2, Ev::T2, Ev::R],
       before: vec![v(100, 3), v(101, 2050), Smp::Dispose { key: 1 }],
-      after: vec![v(200, 1009), v(201, 0)],
+      after: vec![v(200, 1009), v(201, 0), v(202, 2032), v(203, 5)],
       loss: 0,
       pace: 60,
       del: Del::Reader,
@@ -542,7 +544,7 @@ fn corpus() -> Vec<Scenario> {
       rq: rel_v.clone(),
       order: vec![Ev::P2, Ev::T2, Ev::R, Ev::P1, Ev::T1, Ev::W],
       before: vec![],
-      after: vec![v(200, 4099), v(201, 1023), v(202, 17)],
+      after: vec![v(200, 4099), v(201, 1023), v(202, 17), v(203, 3056), v(204, 1)],
       loss: 100,
       pace: 2500,
       del: Del::Writer,
